@@ -780,6 +780,13 @@ static const Fixed CORPUS[] = {
   { "S7::={X1, X1}", "fixed", false }, { "S7::=D8", "fixed", false }, { "S7::=Z", "fixed", false }, { "S7::=1", "fixed", false },
   { "1+C1", "fixed", false }, { "debool(C1)+1", "fixed", false }, { "1+debool(C1)", "fixed", false }, { "debool(C1)<1", "fixed", false }, { "debool(C1)=1", "fixed", false },
   { "{1, debool(C1)}", "fixed", false }, { "{debool(C1), 1}", "fixed", false }, { "Z\xE2\x88\xAA" "C1", "fixed", false }, { "C1\xE2\x88\xAAZ", "fixed", false }, { "1\xE2\x88\x88" "C1", "fixed", false },
+  // type deduction of a recursion variable that needs more rounds than typeDeductionDepth (Properties/C03
+  // recursion_needs_bound_counterexample: typable by the rules, rejected by ViRecursion); one component less is accepted
+  { "R{a:=(1,1,1,1,1,1) | (S4, pr1(a), pr2(a), pr3(a), pr4(a), pr5(a))}", "fixed", false },
+  { "R{a:=(1,1,1,1,1) | (S4, pr1(a), pr2(a), pr3(a), pr4(a))}", "fixed", false },
+  // completeness corners of filters and template calls (check_complete_partial2)
+  { "Fi1,2[S1](S1)", "fixed", false }, { "Fi1[X1](\xE2\x88\x85)", "fixed", false }, { "Fi1[S1](S1)", "fixed", false },
+  { "F1[X1\xC3\x97X1, debool(S1)]", "fixed", false }, { "F1[X1, S4]", "fixed", false },
   { "2147483647+1", "fixed", false }, { "P1[debool(X1), X1]", "fixed", false }, { "P1[debool(X1), \xE2\x88\x85]", "fixed", false }, { "\xC2\xACP1[debool(X1), X1]", "fixed", false },
 };
 
